@@ -72,11 +72,11 @@ CHECKS.update({
     'C11': ('PARTIAL. Lean theorems C11.* over an interleaving model (any number of threads, any schedule): inductive mutual '
             'exclusion invariant, selection accessed only by the lock owner, RAII of the lock handle, no deadlock, proved '
             'witness of the D-9 race; tie: real shells with a threaded mock pump, 2-3 client threads + dispatcher thread, '
-            'g++ runs monitored against the holder specification, clang++ ThreadSanitizer runs for data races.', '§6 C11',
+            'g++ runs monitored against the holder specification (incl.: no out-event is delivered to a client that certainly does not hold the claim - intervals from claim-begin to refusal / release-end in the log), clang++ ThreadSanitizer runs for data races.', '§6 C11',
             'C++ memory model, std::mutex, the real dzn::pump are not exhibited by the model; schedules are sampled by the OS.'),
     'C12': ('Lean theorems C12.* (builder state machine is history free, outputs of a history = fresh builds, support files stand alone; on the heap model of the scoping layer DznModel.ScopingHeap - NamespaceIds as references to mutable list cells - step_frame: an operation changes no pre-existing object except the target of += / pop, step_fresh: results of +, deepcopy, sum, scope_resolution_order, fqn, fqn_member_name and conversions are new objects, run_frame over histories, sro_refines/add_refines: values agree with the pure model); tie: heap histories on real NamespaceIds/NamespaceTree objects (contents of every live object and the sharing of list objects compared after every step), histories of builds on shared parsed models, sibling models (same names, other meanings) and colliding prefixes, deep before/after snapshots, one Builder and one Configuration object edited in place per history, every result compared with a fresh interpreter and with the model.',
             '§6 C12', 'Purity of the model is by construction; the substance for the implementation is the tie.'),
-    'C13': ('Lean theorems C13.* (trichotomy of build: files / library error, never internal; complete_file_set; valid_succeeds for the declarative predicate Valid with a worked instance; invalid_fails per class of invalid input); tie + monitor: valid cases and every applicable single-fault variation (incl. ALL next to REMAINING/ALL, ambiguous port type), outcome class and file-name list compared with the byte-exact Lean model of Builder.build which carries Python failure modes; generator-labelled expectation as independent oracle.',
+    'C13': ('Lean theorems C13.* (trichotomy of build: files / library error, never internal; complete_file_set; valid_succeeds for the declarative predicate Valid with a worked instance; invalid_fails per class of invalid input); tie + monitor: valid cases and every applicable single-fault variation (incl. ALL next to REMAINING/ALL, ambiguous port type), outcome class and file-name list compared with the byte-exact Lean model of Builder.build which carries Python failure modes; generator-labelled expectation as independent oracle; never hangs: every in-process call under a 20 s alarm, unusual model file names built in child interpreters under a watchdog.',
             '§0, §6 C13', ''),
 })
 
